@@ -363,34 +363,43 @@ theorem j2_head (r : RawTimes) (h0 : 0 < (j2Of r).length) (h1 : 0 < (j1Of r).len
 /-! ### the scenario: arbitrary day / ms fields on the lines marked `good = false` -/
 
 /-- `r0` is what the instrument should have recorded (plausible, one calendar year, every line consistent
-with the line numbers to the millisecond); `r` is the file: the same line numbers and years, and on the
-lines marked `good` the same day and ms fields - on the other lines ANY values (the ms field within its
-unsigned 32 bits).  Side conditions: the first line is good, the median of the recorded day numbers is a
-whole number, the pass spans at most six hours. -/
-structure Garbled (P : Rat) (sg : Bool) (nowYear : Int) (r0 r : RawTimes) (good : List Bool) : Prop where
+with the line numbers to the millisecond); `r` is the file: the same line numbers, and on the lines marked
+`good` the same year, day and ms fields - on the other lines ANY values (years plausible: an implausible year
+is the subject of `repair_year_out_of_range`).  Side conditions: the first line is good, the median of the
+recorded day numbers is a whole number. -/
+structure GarbledAny (P : Rat) (sg : Bool) (nowYear : Int) (r0 r : RawTimes) (good : List Bool) : Prop where
   clean : Clean nowYear r0
   year_const : ∀ y ∈ r0.year, y = r0.year.headD 0
   truth : ∀ i, i < r0.nums.length → GoodAt P sg r0 i
   nums_eq : r.nums = r0.nums
-  year_eq : r.year = r0.year
+  len_y : r.year.length = r0.nums.length
   len_j : r.jday.length = r0.nums.length
   len_m : r.msec.length = r0.nums.length
   len_g : good.length = r0.nums.length
+  year_ok : ∀ y ∈ r.year, 1978 ≤ y ∧ y ≤ nowYear
   first_good : ∀ h : 0 < good.length, good[0] = true
+  good_y : ∀ i (h1 : i < good.length) (h2 : i < r.year.length) (h3 : i < r0.year.length),
+    good[i] = true → r.year[i] = r0.year[i]
   good_j : ∀ i (h1 : i < good.length) (h2 : i < r.jday.length) (h3 : i < r0.jday.length),
     good[i] = true → r.jday[i] = r0.jday[i]
   good_m : ∀ i (h1 : i < good.length) (h2 : i < r.msec.length) (h3 : i < r0.msec.length),
     good[i] = true → r.msec[i] = r0.msec[i]
-  msec_u32 : ∀ m ∈ r.msec, 0 ≤ m ∧ m < 4294967296
   med_int : ∃ k : Int, medianD (castL r.jday) = (k : Rat)
+
+/-- the stronger scenario of the 40 % guarantee: in addition EVERY year is intact, the ms field lies within its
+unsigned 32 bits, and the pass spans at most six hours -/
+structure Garbled (P : Rat) (sg : Bool) (nowYear : Int) (r0 r : RawTimes) (good : List Bool) : Prop
+    extends GarbledAny P sg nowYear r0 r good where
+  year_eq : r.year = r0.year
+  msec_u32 : ∀ m ∈ r.msec, 0 ≤ m ∧ m < 4294967296
   span : ∀ i (h : i < r0.nums.length),
     0 ≤ ((lineIdx sg r0.nums[i] - lineIdx sg (r0.nums.headD 0) : Int) : Rat) * P ∧
     ((lineIdx sg r0.nums[i] - lineIdx sg (r0.nums.headD 0) : Int) : Rat) * P ≤ 21600000
 
-namespace Garbled
+namespace GarbledAny
 variable {P : Rat} {sg : Bool} {nowYear : Int} {r0 r : RawTimes} {good : List Bool}
 
-theorem msec_head (h : Garbled P sg nowYear r0 r good) : r.msec.headD 0 = r0.msec.headD 0 := by
+theorem msec_head (h : GarbledAny P sg nowYear r0 r good) : r.msec.headD 0 = r0.msec.headD 0 := by
   have hn := h.clean.n_pos
   have h1 : 0 < r.msec.length := by rw [h.len_m]; exact hn
   have h2 : 0 < r0.msec.length := by rw [h.clean.len_m]; exact hn
@@ -398,7 +407,7 @@ theorem msec_head (h : Garbled P sg nowYear r0 r good) : r.msec.headD 0 = r0.mse
   rw [headD_eq_getElem _ h1, headD_eq_getElem _ h2]
   exact h.good_m 0 hg h1 h2 (h.first_good hg)
 
-theorem jday_head (h : Garbled P sg nowYear r0 r good) : r.jday.headD 0 = r0.jday.headD 0 := by
+theorem jday_head (h : GarbledAny P sg nowYear r0 r good) : r.jday.headD 0 = r0.jday.headD 0 := by
   have hn := h.clean.n_pos
   have h1 : 0 < r.jday.length := by rw [h.len_j]; exact hn
   have h2 : 0 < r0.jday.length := by rw [h.clean.len_j]; exact hn
@@ -406,16 +415,16 @@ theorem jday_head (h : Garbled P sg nowYear r0 r good) : r.jday.headD 0 = r0.jda
   rw [headD_eq_getElem _ h1, headD_eq_getElem _ h2]
   exact h.good_j 0 hg h1 h2 (h.first_good hg)
 
-theorem yearOk (h : Garbled P sg nowYear r0 r good) : YearOk nowYear r where
+theorem yearOk (h : GarbledAny P sg nowYear r0 r good) : YearOk nowYear r where
   n_pos := by rw [h.nums_eq]; exact h.clean.n_pos
-  len_y := by rw [h.year_eq, h.nums_eq]; exact h.clean.len_y
+  len_y := by rw [h.nums_eq]; exact h.len_y
   len_j := by rw [h.nums_eq]; exact h.len_j
   len_m := by rw [h.nums_eq]; exact h.len_m
-  year_ok := by rw [h.year_eq]; exact h.clean.year_ok
+  year_ok := h.year_ok
   msec_first := by rw [h.msec_head]; exact h.clean.msec_first
 
 /-- the first-step day of a good line is its true day -/
-theorem j1_good (h : Garbled P sg nowYear r0 r good) (i : Nat) (hi : i < r0.nums.length)
+theorem j1_good (h : GarbledAny P sg nowYear r0 r good) (i : Nat) (hi : i < r0.nums.length)
     (hg : good[i]'(by rw [h.len_g]; exact hi) = true) :
     (j1Of r)[i]'(by rw [j1Of_length, h.len_j]; exact hi) = ((r0.jday[i]'(by rw [h.clean.len_j]; exact hi) : Int) : Rat) := by
   have h1 : i < r.jday.length := by rw [h.len_j]; exact hi
@@ -425,7 +434,7 @@ theorem j1_good (h : Garbled P sg nowYear r0 r good) (i : Nat) (hi : i < r0.nums
   rw [j1_getElem r i (by rw [j1Of_length]; exact h1) h1, e, if_neg (by omega)]
 
 /-- the head of the repaired day series is the true first day -/
-theorem j2_headR (h : Garbled P sg nowYear r0 r good) : headR (j2Of r) = ((r0.jday.headD 0 : Int) : Rat) := by
+theorem j2_headR (h : GarbledAny P sg nowYear r0 r good) : headR (j2Of r) = ((r0.jday.headD 0 : Int) : Rat) := by
   have hn := h.clean.n_pos
   have hl2 : (j2Of r).length = r0.nums.length := by rw [j2Of_length, h.len_j]
   have hl1 : (j1Of r).length = r0.nums.length := by rw [j1Of_length, h.len_j]
@@ -433,7 +442,7 @@ theorem j2_headR (h : Garbled P sg nowYear r0 r good) : headR (j2Of r) = ((r0.jd
   rw [headR_eq_getElem _ (by omega), j2_head r (by omega) (by omega), h.j1_good 0 hn (h.first_good hg),
     headD_eq_getElem _ (by rw [h.clean.len_j]; exact hn)]
 
-end Garbled
+end GarbledAny
 
 /-! ### what stage 1 returns for each line of such a pass -/
 
@@ -450,7 +459,8 @@ theorem instant_cast (Y z : Int) :
 (to the ms) or the recorded time of day on day `z` - the latter only where the recorded series does not
 jump. -/
 theorem line_cases {P : Rat} {sg : Bool} {nowYear : Int} {r0 r : RawTimes} {good : List Bool}
-    (h : Garbled P sg nowYear r0 r good) (i : Nat) (hi : i < r0.nums.length) :
+    (h : GarbledAny P sg nowYear r0 r good) (i : Nat) (hi : i < r0.nums.length)
+    (hyi : r.year.getD i 0 = r0.year.headD 0) :
     ∃ z : Int, (j2Of r).getD i 0 = (z : Rat) ∧
       (absR (offErr P sg nowYear r0 r i) < 1 ∨
        (offErr P sg nowYear r0 r i = ((z : Rat) - ((r0.jday.getD i 0 : Int) : Rat)) * 86400000
@@ -471,11 +481,8 @@ theorem line_cases {P : Rat} {sg : Bool} {nowYear : Int} {r0 r : RawTimes} {good
   refine ⟨z, by rw [getD_eq _ _ (by omega), hz], ?_⟩
   -- the stage-1 instant of this line
   have hs := s1_yearOk_getElem P sg nowYear r hY i hin (by omega)
-  have hyr : r.year[i]'(by rw [h.year_eq]; omega) = r0.year.headD 0 := by
-    have : r.year[i]'(by rw [h.year_eq]; omega) = r0.year[i]'(by omega) := by
-      simp only [h.year_eq]
-    rw [this]
-    exact h.year_const _ (List.getElem_mem _)
+  have hyr : r.year[i]'(by rw [h.len_y]; exact hi) = r0.year.headD 0 := by
+    rw [← hyi, getD_eq _ _ (by rw [h.len_y]; exact hi)]
   have hyr0 : r0.year[i]'(by omega) = r0.year.headD 0 := h.year_const _ (List.getElem_mem _)
   -- the truth of this line
   have hid := ideal_instant_identity P sg nowYear r0 h.clean h.year_const i hi
@@ -544,7 +551,7 @@ def KeptCond (r : RawTimes) (i : Nat) : Prop :=
 
 /-- a good line comes out of stage 1 within 1 ms of its true time, or a whole number of days away from it
 (its day was replaced by the maximum and its recorded time of day kept) -/
-theorem good_line (h : Garbled P sg nowYear r0 r good) (i : Nat) (hi : i < r0.nums.length)
+theorem good_line (h : GarbledAny P sg nowYear r0 r good) (i : Nat) (hi : i < r0.nums.length)
     (hg : good.getD i false = true) :
     absR (offErr P sg nowYear r0 r i) < 1 ∨
     (absR (offErr P sg nowYear r0 r i) > 720000 ∧ (j2Of r).getD i 0 ≠ (j1Of r).getD i 0 ∧ KeptCond r i) := by
@@ -554,7 +561,12 @@ theorem good_line (h : Garbled P sg nowYear r0 r good) (i : Nat) (hi : i < r0.nu
   have hm0 : i < r0.msec.length := by rw [h.clean.len_m]; exact hi
   have hj0 : i < r0.jday.length := by rw [h.clean.len_j]; exact hi
   have hl1 : i < (j1Of r).length := by rw [j1Of_length, h.len_j]; exact hi
-  obtain ⟨z, hz, hc⟩ := line_cases h i hi
+  have hyi : r.year.getD i 0 = r0.year.headD 0 := by
+    have hy1 : i < r.year.length := by rw [h.len_y]; exact hi
+    have hy0 : i < r0.year.length := by rw [h.clean.len_y]; exact hi
+    rw [getD_eq _ _ hy1, h.good_y i hgl hy1 hy0 hg']
+    exact h.year_const _ (List.getElem_mem hy0)
+  obtain ⟨z, hz, hc⟩ := line_cases h i hi hyi
   rcases hc with hrep | ⟨hoff, hk⟩
   · left; exact hrep
   · obtain ⟨_, h2, hlo, hhi⟩ := h.truth i hi
@@ -602,7 +614,7 @@ theorem day_replaced_step (r : RawTimes) (i : Nat) (hi : i < r.jday.length)
       linarith
 
 /-- ... and that line before is not a good one (the true days never decrease) -/
-theorem pred_not_good (h : Garbled P sg nowYear r0 r good) (p : Nat) (hp : p + 1 < r0.nums.length)
+theorem pred_not_good (h : GarbledAny P sg nowYear r0 r good) (p : Nat) (hp : p + 1 < r0.nums.length)
     (hgi : good.getD (p + 1) false = true) (hlt : (j1Of r).getD (p + 1) 0 < (j1Of r).getD p 0) :
     ¬ good.getD p false = true := by
   intro hgp
@@ -634,7 +646,11 @@ theorem line_before_lost (h : Garbled P sg nowYear r0 r good) (p : Nat) (hp : p 
   have hlm0 : r0.msec.length = r0.nums.length := h.clean.len_m
   have hlj0 : r0.jday.length = r0.nums.length := h.clean.len_j
   have hlid : (idealOfDay P sg r0).length = r0.nums.length := idealOfDay_length P sg r0 h.clean.len_j
-  obtain ⟨z, hz, hc⟩ := line_cases h p hpp
+  have hyp : r.year.getD p 0 = r0.year.headD 0 := by
+    have hy0 : p < r0.year.length := by rw [h.clean.len_y]; exact hpp
+    rw [h.year_eq, getD_eq _ _ hy0]
+    exact h.year_const _ (List.getElem_mem hy0)
+  obtain ⟨z, hz, hc⟩ := line_cases h.toGarbledAny p hpp hyp
   rcases hc with hrep | ⟨hoff, _⟩
   · left; exact hrep
   · right
@@ -690,15 +706,69 @@ def NearI (P : Rat) (sg : Bool) (nowYear : Int) (r0 r : RawTimes) (hd : Int) (i 
 def BandI (P : Rat) (sg : Bool) (nowYear : Int) (r0 r : RawTimes) (i : Nat) : Prop :=
   absR (offErr P sg nowYear r0 r i) ≤ 2
 
-/-- **Garbage in the day-of-year and millisecond fields of fewer than 40 % of the lines is repaired**
-(scenario `Garbled`; header time within 6 min - 2 ms of the pass offset; line numbers not decreasing for the
-signed POD field): `get_times` returns one time per line and every returned time is within 10 s (+ 2 ms) of
-the true time `tn + passOffset`. -/
-theorem repair_day_ms_garbage (P : Rat) (sg : Bool) (nowYear : Int) (hd : Int) (r0 r : RawTimes) (good : List Bool)
-    (h : Garbled P sg nowYear r0 r good)
+section
+variable {P : Rat} {sg : Bool} {nowYear : Int} {r0 r : RawTimes} {good : List Bool}
+
+theorem far_not_near (hd : Int) (hhead : absR (passOffset P sg r0 - (hd : Rat)) ≤ 360000 - 2) (i : Nat)
+    (hf : absR (offErr P sg nowYear r0 r i) > 720000) : ¬ NearI P sg nowYear r0 r hd i := by
+  intro hnr
+  unfold NearI at hnr
+  rw [absR_le_iff] at hnr hhead
+  unfold absR at hf
+  split at hf <;> linarith [hnr.1, hnr.2, hhead.1, hhead.2]
+
+theorem close_near_band (hd : Int) (hhead : absR (passOffset P sg r0 - (hd : Rat)) ≤ 360000 - 2) (i : Nat)
+    (hc : absR (offErr P sg nowYear r0 r i) < 1) : NearI P sg nowYear r0 r hd i ∧ BandI P sg nowYear r0 r i := by
+  rw [absR_lt_iff] at hc
+  rw [absR_le_iff] at hhead
+  unfold NearI BandI
+  rw [absR_le_iff, absR_le_iff]
+  refine ⟨⟨?_, ?_⟩, ⟨?_, ?_⟩⟩ <;> linarith [hc.1, hc.2, hhead.1, hhead.2]
+
+/-- a good line near the header time is right -/
+theorem good_near_band (h : GarbledAny P sg nowYear r0 r good) (hd : Int)
+    (hhead : absR (passOffset P sg r0 - (hd : Rat)) ≤ 360000 - 2) (i : Nat) (hi : i < r0.nums.length)
+    (hg : GoodI good i) (hnr : NearI P sg nowYear r0 r hd i) : BandI P sg nowYear r0 r i := by
+  rcases good_line h i hi hg with hc | ⟨hf, _, _⟩
+  · exact (close_near_band hd hhead i hc).2
+  · exact absurd hnr (far_not_near hd hhead i hf)
+
+/-- a good line NOT near the header time follows a bad line from which the first-step day series steps down,
+and kept its recorded time of day -/
+theorem good_lost (h : GarbledAny P sg nowYear r0 r good) (hd : Int)
+    (hhead : absR (passOffset P sg r0 - (hd : Rat)) ≤ 360000 - 2) (i : Nat) (hi : i < r0.nums.length)
+    (hg : GoodI good i) (hnn : ¬ NearI P sg nowYear r0 r hd i) :
+    ∃ p, i = p + 1 ∧ ¬ GoodI good p ∧ (j1Of r).getD (p + 1) 0 < (j1Of r).getD p 0 ∧ KeptCond r (p + 1) := by
+  rcases good_line h i hi hg with hc | ⟨_, hne, hk⟩
+  · exact absurd (close_near_band hd hhead i hc).1 hnn
+  · obtain ⟨p, hip, hlt⟩ := day_replaced_step r i (by rw [h.len_j]; exact hi) hne
+    subst hip
+    exact ⟨p, rfl, pred_not_good h p hi hg hlt, hlt, hk⟩
+
+open Classical in
+theorem bad_card (h : GarbledAny P sg nowYear r0 r good) :
+    ((Finset.range r0.nums.length).filter (fun i => ¬ GoodI good i)).card = good.count false := by
+  classical
+  have := Count.countP_eq_card good false (fun b => b == false)
+  rw [List.count_eq_countP]
+  rw [show (fun x : Bool => x == false) = (fun b => b == false) from rfl] at *
+  rw [this, h.len_g]
+  congr 1
+  apply Finset.filter_congr
+  intro i _
+  unfold GoodI
+  cases good.getD i false <;> simp
+
+open Classical in
+/-- from "the right lines are a strict majority of the near ones, and more than a fifth of all lines" to the
+result of `get_times` -/
+theorem finish_from_majority (h : GarbledAny P sg nowYear r0 r good) (hd : Int)
     (hdec : (sg && decreasing r.nums) = false)
-    (hbad : 5 * good.count false < 2 * r0.nums.length)
-    (hhead : absR (passOffset P sg r0 - (hd : Rat)) ≤ 360000 - 2) :
+    (hhead : absR (passOffset P sg r0 - (hd : Rat)) ≤ 360000 - 2)
+    (hcount : ((Finset.range r0.nums.length).filter (NearI P sg nowYear r0 r hd)).card <
+      2 * ((Finset.range r0.nums.length).filter (fun i => NearI P sg nowYear r0 r hd i ∧ BandI P sg nowYear r0 r i)).card)
+    (hmany : r0.nums.length <
+      5 * ((Finset.range r0.nums.length).filter (fun i => NearI P sg nowYear r0 r hd i ∧ BandI P sg nowYear r0 r i)).card) :
     (getTimes {} P nowYear sg (some hd) r).length = r0.nums.length ∧
     ∀ i (hi : i < r0.nums.length) (h1 : i < (getTimes {} P nowYear sg (some hd) r).length),
       absR ((((getTimes {} P nowYear sg (some hd) r)[i] : Int) : Rat)
@@ -718,7 +788,6 @@ theorem repair_day_ms_garbage (P : Rat) (sg : Bool) (nowYear : Int) (hd : Int) (
     simp only [htn, tnOf, List.getElem_map, h.nums_eq]
   set offs := offsetsOf t1 tn with hoffs
   have hofflen : offs.length = n := by simp [hoffs, offsetsOf, hlen1, htnlen]
-  -- offsets in terms of the per-line deviation
   have hoffi : ∀ i, i < n → offs.getD i 0 = offErr P sg nowYear r0 r i + C := by
     intro i hi
     rw [getD_eq _ _ (by omega)]
@@ -727,71 +796,27 @@ theorem repair_day_ms_garbage (P : Rat) (sg : Bool) (nowYear : Int) (hd : Int) (
     unfold offErr
     rw [getD_eq _ _ (by rw [← ht1, hlen1]; exact hi), getD_eq (r0.nums) _ hi]
     ring
-  -- the index predicates
-  set goodI : Nat → Prop := GoodI good with hgoodI
-  set nearI : Nat → Prop := NearI P sg nowYear r0 r hd with hnearI
-  set bandI : Nat → Prop := BandI P sg nowYear r0 r with hbandI
-  have hgoodI' : ∀ i, goodI i ↔ good.getD i false = true := fun i => Iff.rfl
-  have hnearI' : ∀ i, nearI i ↔ absR (offErr P sg nowYear r0 r i + (C - (hd : Rat))) ≤ 360000 := fun i => Iff.rfl
-  have hbandI' : ∀ i, bandI i ↔ absR (offErr P sg nowYear r0 r i) ≤ 2 := fun i => Iff.rfl
-  rw [absR_le_iff] at hhead
-  have hfar : ∀ i, absR (offErr P sg nowYear r0 r i) > 720000 → ¬ nearI i := by
-    intro i hf hnr
-    rw [hnearI', absR_le_iff] at hnr
-    unfold absR at hf
-    split at hf <;> linarith [hnr.1, hnr.2, hhead.1, hhead.2]
-  have hclose : ∀ i, absR (offErr P sg nowYear r0 r i) < 1 → nearI i ∧ bandI i := by
-    intro i hc
-    rw [absR_lt_iff] at hc
-    rw [hnearI', hbandI', absR_le_iff, absR_le_iff]
-    refine ⟨⟨?_, ?_⟩, ⟨?_, ?_⟩⟩ <;> linarith [hc.1, hc.2, hhead.1, hhead.2]
-  have ha : ∀ i, i < n → goodI i → nearI i → bandI i := by
-    intro i hi hg hnr
-    rcases good_line h i hi hg with hc | ⟨hf, _, _⟩
-    · exact (hclose i hc).2
-    · exact absurd hnr (hfar i hf)
-  have hb : ∀ i, i < n → goodI i → ¬ nearI i → ∃ p, i = p + 1 ∧ ¬ goodI p ∧ (bandI p ∨ ¬ nearI p) := by
-    intro i hi hg hnn
-    rcases good_line h i hi hg with hc | ⟨_, hne, hk⟩
-    · exact absurd (hclose i hc).1 hnn
-    · obtain ⟨p, hip, hlt⟩ := day_replaced_step r i (by rw [h.len_j]; exact hi) hne
-      subst hip
-      refine ⟨p, rfl, pred_not_good h p hi hg hlt, ?_⟩
-      rcases line_before_lost h p hi hg hlt hk with hc | hf
-      · left; exact (hclose p hc).2
-      · right; exact hfar p hf
-  -- bad lines as an index set
-  have hbadcard : ((Finset.range n).filter (fun i => ¬ goodI i)).card = good.count false := by
-    have := Count.countP_eq_card good false (fun b => b == false)
-    rw [List.count_eq_countP]
-    rw [show (fun x : Bool => x == false) = (fun b => b == false) from rfl] at *
-    rw [this, h.len_g]
-    congr 1
-    apply Finset.filter_congr
-    intro i _
-    rw [hgoodI']
-    cases good.getD i false <;> simp
-  have hmaj : 2 * ((Finset.range n).filter (fun i => ¬ goodI i)).card < n := by rw [hbadcard]; omega
-  obtain ⟨hcount, hmany⟩ := Count.majority_count n goodI nearI bandI ha hb hmaj
-  -- back to the list of near-header offsets
   set near := nearOf {} hd offs with hnear
   have hmd : ({} : S2Params).maxDiffHead = 360000 := rfl
-  have hnearlen : near.length = ((Finset.range n).filter nearI).card := by
+  have hnearlen : near.length = ((Finset.range n).filter (NearI P sg nowYear r0 r hd)).card := by
     rw [hnear, nearOf, ← List.countP_eq_length_filter, Count.countP_eq_card offs 0, hofflen]
     congr 1
     apply Finset.filter_congr
     intro i hi
     rw [Finset.mem_range] at hi
-    rw [hoffi i hi, hmd, hnearI']
+    rw [hoffi i hi, hmd]
+    unfold NearI
     simp only [decide_eq_true_eq]
     rw [show offErr P sg nowYear r0 r i + C - (hd : Rat) = offErr P sg nowYear r0 r i + (C - (hd : Rat)) by ring]
-  have hnearband : near.countP (inBand (C - 2) (C + 2)) = ((Finset.range n).filter (fun i => nearI i ∧ bandI i)).card := by
+  have hnearband : near.countP (inBand (C - 2) (C + 2)) =
+      ((Finset.range n).filter (fun i => NearI P sg nowYear r0 r hd i ∧ BandI P sg nowYear r0 r i)).card := by
     rw [hnear, nearOf, List.countP_filter, Count.countP_eq_card offs 0, hofflen]
     congr 1
     apply Finset.filter_congr
     intro i hi
     rw [Finset.mem_range] at hi
-    rw [hoffi i hi, hmd, hnearI', hbandI']
+    rw [hoffi i hi, hmd]
+    unfold NearI BandI
     simp only [inBand, Bool.and_eq_true, decide_eq_true_eq]
     rw [show offErr P sg nowYear r0 r i + C - (hd : Rat) = offErr P sg nowYear r0 r i + (C - (hd : Rat)) by ring,
       absR_le_iff (offErr P sg nowYear r0 r i) 2]
@@ -806,7 +831,6 @@ theorem repair_day_ms_garbage (P : Rat) (sg : Bool) (nowYear : Int) (hd : Int) (
     have hge : near.countP (inBand (C - 2) (C + 2)) ≤ near.length := List.countP_le_length
     have h5 : n < 5 * near.length := by
       rw [hnearband] at hge
-      rw [hbadcard] at hmany
       omega
     have h5R : (n : Rat) < 5 * (near.length : Rat) := by exact_mod_cast h5
     have hnR : (0 : Rat) < (n : Rat) := by exact_mod_cast hnpos
@@ -831,6 +855,63 @@ theorem repair_day_ms_garbage (P : Rat) (sg : Bool) (nowYear : Int) (hd : Int) (
   rcases hspec.2.1 with hle | hlt
   · linarith
   · linarith
+
+end
+
+/-- **Garbage in the day-of-year and millisecond fields of fewer than 40 % of the lines is repaired**
+(scenario `Garbled`; header time within 6 min - 2 ms of the pass offset; line numbers not decreasing for the
+signed POD field): `get_times` returns one time per line and every returned time is within 10 s (+ 2 ms) of
+the true time `tn + passOffset`. -/
+theorem repair_day_ms_garbage (P : Rat) (sg : Bool) (nowYear : Int) (hd : Int) (r0 r : RawTimes) (good : List Bool)
+    (h : Garbled P sg nowYear r0 r good)
+    (hdec : (sg && decreasing r.nums) = false)
+    (hbad : 5 * good.count false < 2 * r0.nums.length)
+    (hhead : absR (passOffset P sg r0 - (hd : Rat)) ≤ 360000 - 2) :
+    (getTimes {} P nowYear sg (some hd) r).length = r0.nums.length ∧
+    ∀ i (hi : i < r0.nums.length) (h1 : i < (getTimes {} P nowYear sg (some hd) r).length),
+      absR ((((getTimes {} P nowYear sg (some hd) r)[i] : Int) : Rat)
+        - (((lineIdx sg r0.nums[i] : Int) : Rat) * P + passOffset P sg r0)) ≤ 10002 := by
+  have ha := good_near_band h.toGarbledAny hd hhead
+  have hb : ∀ i, i < r0.nums.length → GoodI good i → ¬ NearI P sg nowYear r0 r hd i →
+      ∃ p, i = p + 1 ∧ ¬ GoodI good p ∧ (BandI P sg nowYear r0 r p ∨ ¬ NearI P sg nowYear r0 r hd p) := by
+    intro i hi hg hnn
+    obtain ⟨p, hip, hng, hlt, hk⟩ := good_lost h.toGarbledAny hd hhead i hi hg hnn
+    subst hip
+    refine ⟨p, rfl, hng, ?_⟩
+    rcases line_before_lost h p hi hg hlt hk with hc | hf
+    · left; exact (close_near_band hd hhead p hc).2
+    · right; exact far_not_near hd hhead p hf
+  have hbc := bad_card h.toGarbledAny
+  obtain ⟨hcount, hmany⟩ := Count.majority_count r0.nums.length (GoodI good) (NearI P sg nowYear r0 r hd)
+    (BandI P sg nowYear r0 r) ha hb (by rw [hbc]; omega)
+  rw [hbc] at hmany
+  exact finish_from_majority h.toGarbledAny hd hdec hhead hcount (by omega)
+
+/-- **ANY garbage - year, day-of-year and millisecond fields - on fewer than one third of the lines is
+repaired** (scenario `GarbledAny`: the corrupt lines carry arbitrary plausible years, arbitrary days, arbitrary
+ms values, with no restriction on the ms field's size or on the length of the pass): every returned time is
+within 10 s (+ 2 ms) of the true time.  Nothing is known here about where the corrupt lines end up, so each
+may both count against the right ones near the header time and spoil the good line after it: hence one third. -/
+theorem repair_any_garbage_third (P : Rat) (sg : Bool) (nowYear : Int) (hd : Int) (r0 r : RawTimes) (good : List Bool)
+    (h : GarbledAny P sg nowYear r0 r good)
+    (hdec : (sg && decreasing r.nums) = false)
+    (hbad : 3 * good.count false < r0.nums.length)
+    (hhead : absR (passOffset P sg r0 - (hd : Rat)) ≤ 360000 - 2) :
+    (getTimes {} P nowYear sg (some hd) r).length = r0.nums.length ∧
+    ∀ i (hi : i < r0.nums.length) (h1 : i < (getTimes {} P nowYear sg (some hd) r).length),
+      absR ((((getTimes {} P nowYear sg (some hd) r)[i] : Int) : Rat)
+        - (((lineIdx sg r0.nums[i] : Int) : Rat) * P + passOffset P sg r0)) ≤ 10002 := by
+  have ha := good_near_band h hd hhead
+  have hb : ∀ i, i < r0.nums.length → GoodI good i → ¬ NearI P sg nowYear r0 r hd i →
+      ∃ p, i = p + 1 ∧ ¬ GoodI good p := by
+    intro i hi hg hnn
+    obtain ⟨p, hip, hng, _, _⟩ := good_lost h hd hhead i hi hg hnn
+    exact ⟨p, hip, hng⟩
+  have hbc := bad_card h
+  obtain ⟨hcount, hmany⟩ := Count.third_count r0.nums.length (GoodI good) (NearI P sg nowYear r0 r hd)
+    (BandI P sg nowYear r0 r) ha hb (by rw [hbc]; omega)
+  rw [hbc] at hmany
+  exact finish_from_majority h hd hdec hhead hcount (by omega)
 
 end PygacModel.Times
 
